@@ -48,7 +48,8 @@ def main(run: Run):
     from ..common import EngineFault
     try:
         n = crosscheck_memory(seed=run.seed, n_inputs=16 if run.tier == "quick" else 150)
-        run.extra["cpython_crosscheck"] = {"function_input_pairs": n, "disagreements": 0}
+        run.extra["cpython_crosscheck"] = {"function_input_pairs": n, "disagreements": 0,
+                                           "inputs_skipped_because_the_solver_left_a_path_undecided": getattr(crosscheck_memory, "skipped", 0)}
     except EngineFault as e:
         run.engine_faults.append(str(e))
     from . import memtrees
